@@ -2,7 +2,7 @@
 
 A case is JSON-able:
   {"left": DF, "steps": [{"right": DF, "on": ON, "how": str}, ...], "fin": FIN, "data": variant}
-  DF  = ["base", T] | ["where", DF, UE] | ["alias", DF, a] | ["proj", DF, [col, ...]]
+  DF  = ["base", T] | ["where", DF, UE] | ["alias", DF, a] | ["proj", DF, [col, ...]] | ["limit", DF, n]  (n >= row count)
   ON  = None | ["names", [k, ...], as_str] | ["exprs", [UE, ...], as_list]
   UE  = ["ref", REF] | ["lit", v] | ["bin", Op, UE, UE] | ["not", UE] | ["isnull", UE]
   REF = ["name", n] | ["df", DF, n] | ["alias", a, n]
@@ -60,7 +60,7 @@ def df_cols(d):
     """column names of a DF description"""
     if d[0] == "base":
         return [c for c, _ in SCHEMAS[d[1]]]
-    if d[0] in ("where", "alias"):
+    if d[0] in ("where", "alias", "limit"):
         return df_cols(d[1])
     if d[0] == "proj":
         return list(d[2])
@@ -74,10 +74,18 @@ def df_base(d):
 class Builder:
     """builds the DataFrames of one case with a PySpark-compatible API (sqlframe or pyspark)"""
 
-    def __init__(self, session, F, data, make_df=None):
+    def __init__(self, session, F, data, make_df=None, order_seed=None):
         self.session, self.F, self.data = session, F, data
         self.objs = {}
         self.make_df = make_df
+        self.order_seed = order_seed      # VERIF_SEED: permutes the rows of the input tables (results are compared as bags)
+
+    def rows(self, t):
+        rows = list(DATA[self.data][t])
+        if self.order_seed is not None:
+            import random
+            random.Random(f"{self.order_seed}/{self.data}/{t}").shuffle(rows)
+        return rows
 
     def df(self, d):
         k = key(d)
@@ -85,15 +93,17 @@ class Builder:
             return self.objs[k]
         if d[0] == "base":
             if self.make_df:
-                o = self.make_df(d[1], DATA[self.data][d[1]])
+                o = self.make_df(d[1], self.rows(d[1]))
             else:
-                o = self.session.createDataFrame(DATA[self.data][d[1]], schema_str(d[1]))
+                o = self.session.createDataFrame(self.rows(d[1]), schema_str(d[1]))
         elif d[0] == "where":
             o = self.df(d[1]).where(self.ue(d[2]))
         elif d[0] == "alias":
             o = self.df(d[1]).alias(d[2])
         elif d[0] == "proj":
             o = self.df(d[1]).select(*d[2])
+        elif d[0] == "limit":
+            o = self.df(d[1]).limit(d[2])
         else:
             raise ValueError(d)
         self.objs[k] = o
